@@ -173,7 +173,7 @@ def rule_r2(p, res):
     image2, fp2, cen = f2.params
     g2, d2, st2 = _attach_paths(p, r, f2, image2, "new_image")
     s = norm(f2.node)
-    r.check("mask = sample_mask_for_centres(%s.mask.mask, %s)" % (image2, cen) in s and "MaskedImage(%s, mask=mask, copy=False)" % fp2 in s, f2, f2.node,
+    r.check("mask = sample_mask_for_centres(%s.mask.mask, %s)" % (image2, cen) in s and "MaskedImage(%s, copy=False, mask=mask)" % fp2 in s, f2, f2.node,
             "a masked input must keep its mask sampled at the window centres")
     r.check("t = lm_centres_correction(%s)" % cen in s and "new_image.landmarks = t.apply(%s.landmarks)" % image2 in s, f2, f2.node, "landmarks must be mapped into the window-centre grid")
 
